@@ -2,10 +2,14 @@
   Props/C16.lean — C16: a merged step is equivalent to the two steps it replaces.
   `merge_equiv` is conditional on the merged step applying; that it *does* apply whenever the pair does is
   proved for mark steps (`merge_succeeds_marks`), for flat replace steps in every schema
-  (`merge_succeeds_replace_flat`) and for replace steps with open slices over any ranges in schemas whose
-  `compatible_content` is transitive (`merge_succeeds_replace`; without that guard the statement is false,
+  (`merge_succeeds_replace_flat`), for replace steps with open slices over any ranges in every schema when
+  the second step continues after the first one's content (`merge_succeeds_replace_forward`), and for both
+  `merge` branches under the per-case guard `mergeCompat` (`merge_succeeds_replace_backward`; the guard is
+  also necessary, `merge_succeeds_replace_iff`), which holds
+  in particular in schemas whose `compatible_content` is transitive (`mergeCompat_of_trans`,
+  `merge_succeeds_replace`; in the second branch the statement is false without a guard,
   `merge_needs_guard`).  Helper lemmas: Proofs/Merge.lean, Proofs/MarkMerge.lean, Proofs/FlatReplace.lean,
-  Proofs/MergeOpen.lean.
+  Proofs/MergeOpen.lean, Proofs/MergeForward.lean, Proofs/MergeGuard.lean, Proofs/MergeNecessary.lean.
 -/
 import PM.Step
 import Proofs.StepToks
@@ -13,6 +17,9 @@ import Proofs.Merge
 import Proofs.MarkMerge
 import Proofs.FlatReplace
 import Proofs.MergeOpen
+import Proofs.MergeForward
+import Proofs.MergeGuard
+import Proofs.MergeNecessary
 namespace PM.C16
 open PM
 
@@ -185,6 +192,92 @@ theorem merge_equiv_marks (S : Schema) (hts : TextLoop S) (s1 s2 m : Step) (d d1
         (removeMark_facts S d1 d2 _ _ mk h2).norm ((removeMark_facts S d d1 _ _ mk h1).norm hn)⟩
   rw [h', merge_equiv S s1 s2 m d d1 d2 d' h1 h2 hm h' norms.1 norms.2]
 
+/-! ### Is `TextLoop` forced for merged mark steps?
+
+A *single* add-mark or remove-mark step needs `TextLoop` to apply (re-marking the middle of a text node
+splits it into up to three text children: C01, `addMark_applies`), and `merge_succeeds_marks` inherits the
+hypothesis only because it is proved through that single-step theorem.  It does not seem to be forced for
+merging: the merged step rebuilds, token for token, the document the pair produced, and every node it
+validates on the way was validated with the same content by one of the two steps (or is untouched).  A
+search with the real code over the content expressions `text?`, `text{0,3}`, `(text img)* text?`,
+`img? text? img?` (none satisfies `TextLoop`), all one- and two-paragraph documents with up to three
+differently marked text runs, and all pairs of add-mark / remove-mark ranges that apply in sequence and
+merge (about 3.3·10^5 pairs) found no refused merged step, and the check of this property treats a refused
+merged mark step as a violation in every schema, with aimed schemas of this kind (counters
+`merged:…:schema-without-textLoop`).  So there is no `_needs_TextLoop` counterexample; a proof without the
+hypothesis needs a variant of the replace-success argument (Proofs/MarkSuccess.lean) that uses validity of
+the *pair's result* along the rebuilt path instead of `TextLoop` — not done.  What holds without any
+hypothesis (no `TextLoop`, no validity, no normal form) is the case in which the first range covers the
+second: the merged step is the first step. -/
+
+/-- **merged mark steps, first range covers the second — no hypothesis on schema or document**: the merged
+    step is the first step, it applies and (`merge_equiv`) the second step changed nothing -/
+theorem merge_succeeds_marks_covered (S : Schema) (s1 s2 m : Step) (d d1 : Node) (f t f' t' : Nat) (mk : Mark)
+    (hs : (s1 = .addMark f t mk ∧ s2 = .addMark f' t' mk) ∨ (s1 = .removeMark f t mk ∧ s2 = .removeMark f' t' mk))
+    (hcov : f ≤ f' ∧ t' ≤ t)
+    (h1 : S.apply s1 d = .ok d1) (hm : s1.merge s2 = some m) : m = s1 ∧ S.apply m d = .ok d1 := by
+  have hm' : m = s1 := by
+    rcases hs with ⟨rfl, rfl⟩ | ⟨rfl, rfl⟩
+    · simp only [Step.merge] at hm
+      split at hm
+      · simp only [Option.some.injEq] at hm
+        rw [← hm, show min f f' = f by omega, show max t t' = t by omega]
+      · simp at hm
+    · simp only [Step.merge] at hm
+      split at hm
+      · simp only [Option.some.injEq] at hm
+        rw [← hm, show min f f' = f by omega, show max t t' = t by omega]
+      · simp at hm
+  exact ⟨hm', hm' ▸ h1⟩
+
+/-! Non-vacuity of `merge_succeeds_marks_covered`: `doc(p("abc"))`, add `em` on 1 … 4, then on 2 … 3: the
+    merged step is the first one. -/
+section ExampleCovered
+private def tinyM : Schema :=
+  { nodes := #[
+      { name := "doc", isText := false, isInline := false, isLeaf := false, isAtom := false,
+        inlineContent := false, isolating := false, defining := false, code := false,
+        dfa := #[⟨true, [(1, 0)]⟩], markSet := some [], attrs := [] },
+      { name := "para", isText := false, isInline := false, isLeaf := false, isAtom := false,
+        inlineContent := true, isolating := false, defining := false, code := false,
+        dfa := #[⟨true, [(2, 0)]⟩], markSet := none, attrs := [] },
+      { name := "text", isText := true, isInline := true, isLeaf := true, isAtom := true,
+        inlineContent := false, isolating := false, defining := false, code := false,
+        dfa := #[⟨true, []⟩], markSet := some [], attrs := [] }],
+    marks := #[⟨"em", [0], true, []⟩], top := 0, textTy := 2 }
+
+private theorem tinyM_loop : TextLoop tinyM := by
+  intro t q q1 h
+  match t, q with
+  | 0, 0 => simp [Schema.dfa, Schema.nodeType, tinyM, Dfa.matchType, Dfa.edgesOf] at h
+  | 1, 0 =>
+    have : q1 = 0 := by
+      simp [Schema.dfa, Schema.nodeType, tinyM, Dfa.matchType, Dfa.edgesOf] at h; omega
+    subst this; exact h
+  | 2, 0 => simp [Schema.dfa, Schema.nodeType, tinyM, Dfa.matchType, Dfa.edgesOf] at h
+  | 0, q + 1 => simp [Schema.dfa, Schema.nodeType, tinyM, Dfa.matchType, Dfa.edgesOf] at h
+  | 1, q + 1 => simp [Schema.dfa, Schema.nodeType, tinyM, Dfa.matchType, Dfa.edgesOf] at h
+  | 2, q + 1 => simp [Schema.dfa, Schema.nodeType, tinyM, Dfa.matchType, Dfa.edgesOf] at h
+  | t + 3, q =>
+    have : (tinyM.dfa (t + 3)) = #[] := by
+      simp [Schema.dfa, Schema.nodeType, tinyM]
+      rfl
+    rw [this] at h
+    simp [Dfa.matchType, Dfa.edgesOf] at h
+
+private def mKids : List Node := [.elem 1 [] [] [.text [97, 98, 99] []]]
+
+example : ∃ d1, tinyM.apply (.addMark 1 4 ⟨0, []⟩) (.elem 0 [] [] mKids) = .ok d1 ∧
+    (Step.addMark 1 4 ⟨0, []⟩).merge (.addMark 2 3 ⟨0, []⟩) = some (.addMark 1 4 ⟨0, []⟩) := by
+  obtain ⟨d1, h1⟩ := PM.addMark_applies tinyM tinyM_loop 0 [] [] mKids 1 4 ⟨0, []⟩
+    (by simp [mKids, Schema.checkNode, Schema.checkKids]; decide)
+    (by simp [mKids, fnorm, fnormKids, Node.norm, chainOk])
+    (by omega) (by simp [mKids]) (by simp [mKids, alignedAt])
+    (by simp [mKids, alignedAt])
+  have := merge_succeeds_marks_covered tinyM _ _ _ _ d1 1 4 2 3 ⟨0, []⟩ (.inl ⟨rfl, rfl⟩) (by omega) h1 rfl
+  exact ⟨d1, this.1 ▸ this.2, rfl⟩
+end ExampleCovered
+
 /-! ## The merged step applies — replace steps, flat case (helper lemmas: Proofs/FlatReplace.lean)
 
 General statement:
@@ -312,9 +405,9 @@ Guards (all decidable, all explicit):
   it with the node the first step had already merged that ancestor into — only the chain
   `second-slice node ~ merged node ~ to's ancestor` was checked.  (`compatTransB` holds for the bundled
   schemas; the harness evaluates it through the driver op `compatTrans`.)  The guard is needed for the
-  second `merge` branch (deleting backwards: `merge_needs_guard`); in the first branch one of the two
-  relations composed is the identity at every level, so the statement should hold there without it — not
-  proved (a search over merged pairs in a non-transitive schema found no failure in that branch).
+  second `merge` branch only (deleting backwards: `merge_needs_guard`); in the first branch one of the
+  two relations composed is the identity at every level and the statement holds in every schema:
+  `merge_succeeds_replace_forward` below.
 * the document is valid and in normal form, the two slices are in normal form and valid payloads
   (`openValid`, C01);
 * `ha1`, `ha2`: the ends of the content each step inserted do not fall between the halves of a surrogate
@@ -447,6 +540,313 @@ example : tinyS.apply (.replace 2 5 ⟨[par [120], par [121]], 1, 1⟩ false) o0
   simpa [Slice.size, fappend, addNode, par] using this
 end ExampleOpen
 
+/-! ### The first `merge` branch needs no schema guard
+
+In the first branch of `Step.merge` (the second step starts where the content the first one inserted ends:
+typing on, deleting forwards, pasting in sequence) the statement of `merge_succeeds_replace` holds in
+**every** schema: the second slice is closed on its left, so the second step runs down through every node
+that holds both of its ends without joining anything there — at those levels its before/after relation is
+the identity on node types and the first step's join checks are the ones the merged step repeats — and from
+the level where its ends part, the right end lies in nodes the first step did not touch, so there the first
+step's relation is the identity and the second step's join checks are the ones the merged step repeats
+(`outer_rrel_comp`, Proofs/MergeForward.lean).  No two `compatible_content` facts are ever composed. -/
+
+/-- **first `merge` branch, no schema guard**: a merged replace step applies whenever the two steps it
+    replaces apply in sequence, and yields the pair's result — the second step starts where the first one's
+    content ends; open slices, ranges across node boundaries, any schema -/
+theorem merge_succeeds_replace_forward (S : Schema) (d d1 d2 : Node)
+    (f t f' t' : Nat) (sl sl' : Slice) (m : Step)
+    (hv : S.checkNode d = true) (hn : fnorm d.kids = true)
+    (hsn : fnorm sl.content = true) (hsn' : fnorm sl'.content = true)
+    (hp : openValid S sl.openStart sl.openEnd sl.content = true)
+    (hp' : openValid S sl'.openStart sl'.openEnd sl'.content = true)
+    (h1 : S.apply (.replace f t sl false) d = .ok d1)
+    (h2 : S.apply (.replace f' t' sl' false) d1 = .ok d2)
+    (hm : (Step.replace f t sl false).merge (.replace f' t' sl' false) = some m)
+    (hfwd : (f : Int) + sl.size = f' ∧ sl.openEnd = 0 ∧ sl'.openStart = 0)
+    (ha1 : alignedAt d1.kids f = true ∧ alignedAt d1.kids (f + sl.size.toNat) = true)
+    (ha2 : alignedAt d2.kids f' = true ∧ alignedAt d2.kids (f' + sl'.size.toNat) = true) :
+    S.apply m d = .ok d2 := by
+  obtain ⟨ty, at_, mk, K, K1, rfl, rfl, hr1⟩ := fromReplace_parts S d d1 f t _ (apply_replace_from _ _ _ _ _ _ _ h1)
+  obtain ⟨ty', at', mk', K1', K2, he, rfl, hr2⟩ :=
+    fromReplace_parts S _ d2 f' t' _ (apply_replace_from _ _ _ _ _ _ _ h2)
+  cases he
+  simp only [Node.kids] at hn ha1 ha2
+  simp only [checkNode_elem, Bool.and_eq_true] at hv
+  obtain ⟨_, _, hwf1⟩ := replaceKids_guards S ty K f t sl K1 hr1
+  obtain ⟨_, _, hwf2⟩ := replaceKids_guards S ty K1 f' t' sl' K2 hr2
+  obtain ⟨hl1, hs1⟩ := Slice.toks_length_of_wf hwf1
+  obtain ⟨hl2, hs2⟩ := Slice.toks_length_of_wf hwf2
+  obtain ⟨c, a, e⟩ := sl
+  obtain ⟨c', a', b⟩ := sl'
+  simp only at hsn hsn' hp hp' hfwd
+  obtain ⟨hc1, rfl, rfl⟩ := hfwd
+  have hw1 := hwf1
+  have hw2 := hwf2
+  simp only [Slice.wf, Bool.and_eq_true, decide_eq_true_eq] at hw1 hw2
+  simp only [Step.merge, Bool.or_self, Bool.false_eq_true, if_false] at hm
+  rw [if_pos (by simp [hc1])] at hm
+  simp only [Option.some.injEq] at hm
+  subst hm
+  have hf' : f' = f + (Slice.mk c a 0).toks.length := by omega
+  have hsl : (if (Slice.mk c a 0).size + (Slice.mk c' 0 b).size = 0 then Slice.empty
+      else ⟨fappend c c', a, b⟩) = ⟨fappend c c', a, b⟩ := by
+    split
+    · rename_i hz
+      have e1 : c = [] := sliceToks_empty_content c a 0 hsn hw1.1 hw1.2 (.inr rfl) (by omega)
+      have e2 : c' = [] := sliceToks_empty_content c' 0 b hsn' hw2.1 hw2.2 (.inl rfl) (by omega)
+      subst e1; subst e2
+      have : a = 0 := by simpa [spineL] using hw1.1
+      subst this
+      have : b = 0 := by simpa [spineR] using hw2.2
+      subst this
+      rfl
+    · rfl
+  have key := replaceKids_merge_open_fwd S ty K K1 K2 f t f' t' c c' a b hv.1.1 hv.2 hn hsn hsn' hp hp'
+    hr1 hr2 hf' ha1.1 ⟨ha2.1, by rw [hl2]; exact ha2.2⟩
+  simp only [hsl, Schema.apply, Bool.false_eq_true, if_false, Schema.fromReplace, Schema.replace, key,
+    Except.map]
+
+/-! ### The second `merge` branch under a per-case guard
+
+`compatTransB` asks for transitivity of `compatible_content` on the whole schema.  What the merged step of
+the second branch really needs is one chain in one document: the merged step joins the ancestors of the
+first step's `to` onto the ancestors of the second step's `from` at every level above its slice — the depths
+`1 … depth(first.from)` of the *original* document — while the pair only joined each of them onto the
+ancestors of the first step's `from`.  `mergeCompat S d s1 s2` (PM/MergeGuard.lean) is exactly that list of
+`check_join`s (`true` in the first branch); it is decidable from the document and the two steps, it follows
+from `compatTransB` when the pair applies (`mergeCompat_of_trans`), and it is what fails in
+`merge_needs_guard`.  The harness evaluates it with the real code's `ResolvedPos.node` /
+`compatible_content` (exact tie, driver op `mergeCompat`) and checks "guard true and the pair applies ⇒ the
+real merged step applies and gives the pair's document" in every schema, transitive or not. -/
+
+/-- **a merged replace step applies whenever the two steps it replaces apply in sequence and the per-case
+    guard holds, and yields the pair's result** — both `merge` branches (the guard is `true` in the first),
+    open slices, ranges across node boundaries, any schema -/
+theorem merge_succeeds_replace_backward (S : Schema) (d d1 d2 : Node)
+    (f t f' t' : Nat) (sl sl' : Slice) (m : Step)
+    (hg : mergeCompat S d (.replace f t sl false) (.replace f' t' sl' false) = true)
+    (hv : S.checkNode d = true) (hn : fnorm d.kids = true)
+    (hsn : fnorm sl.content = true) (hsn' : fnorm sl'.content = true)
+    (hp : openValid S sl.openStart sl.openEnd sl.content = true)
+    (hp' : openValid S sl'.openStart sl'.openEnd sl'.content = true)
+    (h1 : S.apply (.replace f t sl false) d = .ok d1)
+    (h2 : S.apply (.replace f' t' sl' false) d1 = .ok d2)
+    (hm : (Step.replace f t sl false).merge (.replace f' t' sl' false) = some m)
+    (ha1 : alignedAt d1.kids f = true ∧ alignedAt d1.kids (f + sl.size.toNat) = true)
+    (ha2 : alignedAt d2.kids f' = true ∧ alignedAt d2.kids (f' + sl'.size.toNat) = true) :
+    S.apply m d = .ok d2 := by
+  obtain ⟨ty, at_, mk, K, K1, rfl, rfl, hr1⟩ := fromReplace_parts S d d1 f t _ (apply_replace_from _ _ _ _ _ _ _ h1)
+  obtain ⟨ty', at', mk', K1', K2, he, rfl, hr2⟩ :=
+    fromReplace_parts S _ d2 f' t' _ (apply_replace_from _ _ _ _ _ _ _ h2)
+  cases he
+  simp only [Node.kids] at hn ha1 ha2
+  simp only [checkNode_elem, Bool.and_eq_true] at hv
+  obtain ⟨_, _, hwf1⟩ := replaceKids_guards S ty K f t sl K1 hr1
+  obtain ⟨_, _, hwf2⟩ := replaceKids_guards S ty K1 f' t' sl' K2 hr2
+  obtain ⟨hl1, hs1⟩ := Slice.toks_length_of_wf hwf1
+  obtain ⟨hl2, hs2⟩ := Slice.toks_length_of_wf hwf2
+  obtain ⟨c, a, e⟩ := sl
+  obtain ⟨c', a', b⟩ := sl'
+  simp only at hsn hsn' hp hp'
+  simp only [mergeCompat, Node.kids] at hg
+  have hw1 := hwf1
+  have hw2 := hwf2
+  simp only [Slice.wf, Bool.and_eq_true, decide_eq_true_eq] at hw1 hw2
+  simp only [Step.merge, Bool.or_self, Bool.false_eq_true, if_false] at hm
+  split at hm
+  · -- the second step starts where the first one's content ends
+    rename_i hc
+    simp only [Bool.and_eq_true, decide_eq_true_eq] at hc
+    obtain ⟨⟨hc1, rfl⟩, rfl⟩ := hc
+    simp only [Option.some.injEq] at hm
+    subst hm
+    have hf' : f' = f + (Slice.mk c a 0).toks.length := by omega
+    have hsl : (if (Slice.mk c a 0).size + (Slice.mk c' 0 b).size = 0 then Slice.empty
+        else ⟨fappend c c', a, b⟩) = ⟨fappend c c', a, b⟩ := by
+      split
+      · rename_i hz
+        have e1 : c = [] := sliceToks_empty_content c a 0 hsn hw1.1 hw1.2 (.inr rfl) (by omega)
+        have e2 : c' = [] := sliceToks_empty_content c' 0 b hsn' hw2.1 hw2.2 (.inl rfl) (by omega)
+        subst e1; subst e2
+        have : a = 0 := by simpa [spineL] using hw1.1
+        subst this
+        have : b = 0 := by simpa [spineR] using hw2.2
+        subst this
+        rfl
+      · rfl
+    have key := replaceKids_merge_open_fwd S ty K K1 K2 f t f' t' c c' a b hv.1.1 hv.2 hn hsn hsn' hp hp'
+      hr1 hr2 hf' ha1.1 ⟨ha2.1, by rw [hl2]; exact ha2.2⟩
+    simp only [hsl, Schema.apply, Bool.false_eq_true, if_false, Schema.fromReplace, Schema.replace, key,
+      Except.map]
+  · split at hm
+    · -- the second step ends where the first one starts
+      rename_i hnc hc
+      rw [if_neg hnc] at hg
+      simp only [Bool.and_eq_true, decide_eq_true_eq] at hc
+      obtain ⟨⟨rfl, rfl⟩, rfl⟩ := hc
+      simp only [Option.some.injEq] at hm
+      subst hm
+      have hsl : (if (Slice.mk c 0 e).size + (Slice.mk c' a' 0).size = 0 then Slice.empty
+          else ⟨fappend c' c, a', e⟩) = ⟨fappend c' c, a', e⟩ := by
+        split
+        · rename_i hz
+          have e1 : c = [] := sliceToks_empty_content c 0 e hsn hw1.1 hw1.2 (.inl rfl) (by omega)
+          have e2 : c' = [] := sliceToks_empty_content c' a' 0 hsn' hw2.1 hw2.2 (.inr rfl) (by omega)
+          subst e1; subst e2
+          have : e = 0 := by simpa [spineR] using hw1.2
+          subst this
+          have : a' = 0 := by simpa [spineL] using hw2.1
+          subst this
+          rfl
+        · rfl
+      have key := replaceKids_merge_open_left_guarded S ty K K1 K2 t' t f' c c' a' e hg hv.1.1 hv.2 hn hsn hsn'
+        hp hp' hr1 hr2 (by rw [hl1]; exact ha1.2) ⟨ha2.1, by rw [hl2]; exact ha2.2⟩
+      simp only [hsl, Schema.apply, Bool.false_eq_true, if_false, Schema.fromReplace, Schema.replace, key,
+        Except.map]
+    · simp at hm
+
+
+/-- **the schema guard implies the per-case guard** whenever the pair applies and merges -/
+theorem mergeCompat_of_trans (S : Schema) (htr : compatTransB S = true) (d d1 d2 : Node)
+    (f t f' t' : Nat) (sl sl' : Slice) (m : Step)
+    (hv : S.checkNode d = true) (hn : fnorm d.kids = true)
+    (hsn : fnorm sl.content = true) (hsn' : fnorm sl'.content = true)
+    (hp : openValid S sl.openStart sl.openEnd sl.content = true)
+    (hp' : openValid S sl'.openStart sl'.openEnd sl'.content = true)
+    (h1 : S.apply (.replace f t sl false) d = .ok d1)
+    (h2 : S.apply (.replace f' t' sl' false) d1 = .ok d2)
+    (hm : (Step.replace f t sl false).merge (.replace f' t' sl' false) = some m)
+    (ha1 : alignedAt d1.kids f = true ∧ alignedAt d1.kids (f + sl.size.toNat) = true)
+    (ha2 : alignedAt d2.kids f' = true ∧ alignedAt d2.kids (f' + sl'.size.toNat) = true) :
+    mergeCompat S d (.replace f t sl false) (.replace f' t' sl' false) = true := by
+  obtain ⟨ty, at_, mk, K, K1, rfl, rfl, hr1⟩ := fromReplace_parts S d d1 f t _ (apply_replace_from _ _ _ _ _ _ _ h1)
+  obtain ⟨ty', at', mk', K1', K2, he, rfl, hr2⟩ :=
+    fromReplace_parts S _ d2 f' t' _ (apply_replace_from _ _ _ _ _ _ _ h2)
+  cases he
+  simp only [Node.kids] at hn ha1 ha2
+  simp only [checkNode_elem, Bool.and_eq_true] at hv
+  have htrP := compatTrans_of_B S htr
+  obtain ⟨_, _, hwf1⟩ := replaceKids_guards S ty K f t sl K1 hr1
+  obtain ⟨_, _, hwf2⟩ := replaceKids_guards S ty K1 f' t' sl' K2 hr2
+  obtain ⟨hl1, hs1⟩ := Slice.toks_length_of_wf hwf1
+  obtain ⟨hl2, hs2⟩ := Slice.toks_length_of_wf hwf2
+  obtain ⟨c, a, e⟩ := sl
+  obtain ⟨c', a', b⟩ := sl'
+  simp only at hsn hsn' hp hp'
+  simp only [mergeCompat, Node.kids]
+  simp only [Step.merge, Bool.or_self, Bool.false_eq_true, if_false] at hm
+  split at hm
+  · rename_i hc
+    rw [if_pos hc]
+  · split at hm
+    · rename_i hnc hc
+      rw [if_neg hnc]
+      simp only [Bool.and_eq_true, decide_eq_true_eq] at hc
+      obtain ⟨⟨rfl, rfl⟩, rfl⟩ := hc
+      exact ancCompat_of_trans_pair S htrP ty K K1 K2 t' t f' c c' a' e hv.1.1 hv.2 hn hsn hsn'
+        hp hp' hr1 hr2 (by rw [hl1]; exact ha1.2) ⟨ha2.1, by rw [hl2]; exact ha2.2⟩
+    · simp at hm
+
+/-- `merge_succeeds_replace` is the per-case theorem composed with `mergeCompat_of_trans` -/
+example (S : Schema) (htr : compatTransB S = true) (d d1 d2 : Node)
+    (f t f' t' : Nat) (sl sl' : Slice) (m : Step)
+    (hv : S.checkNode d = true) (hn : fnorm d.kids = true)
+    (hsn : fnorm sl.content = true) (hsn' : fnorm sl'.content = true)
+    (hp : openValid S sl.openStart sl.openEnd sl.content = true)
+    (hp' : openValid S sl'.openStart sl'.openEnd sl'.content = true)
+    (h1 : S.apply (.replace f t sl false) d = .ok d1)
+    (h2 : S.apply (.replace f' t' sl' false) d1 = .ok d2)
+    (hm : (Step.replace f t sl false).merge (.replace f' t' sl' false) = some m)
+    (ha1 : alignedAt d1.kids f = true ∧ alignedAt d1.kids (f + sl.size.toNat) = true)
+    (ha2 : alignedAt d2.kids f' = true ∧ alignedAt d2.kids (f' + sl'.size.toNat) = true) :
+    S.apply m d = .ok d2 :=
+  merge_succeeds_replace_backward S d d1 d2 f t f' t' sl sl' m
+    (mergeCompat_of_trans S htr d d1 d2 f t f' t' sl sl' m hv hn hsn hsn' hp hp' h1 h2 hm ha1 ha2)
+    hv hn hsn hsn' hp hp' h1 h2 hm ha1 ha2
+
+/-- **the per-case guard is necessary**: if the pair applies, merges, and the merged step applies, then
+    `mergeCompat` holds (a successful replace has run `check_join` on the ancestors of its two ends at every
+    level above its slice, `replaceKids_anc`) -/
+theorem mergeCompat_of_merged_applies (S : Schema) (d d1 d2 d' : Node)
+    (f t f' t' : Nat) (sl sl' : Slice) (m : Step) (hn : fnorm d.kids = true)
+    (h1 : S.apply (.replace f t sl false) d = .ok d1)
+    (h2 : S.apply (.replace f' t' sl' false) d1 = .ok d2)
+    (hm : (Step.replace f t sl false).merge (.replace f' t' sl' false) = some m)
+    (h' : S.apply m d = .ok d') :
+    mergeCompat S d (.replace f t sl false) (.replace f' t' sl' false) = true := by
+  obtain ⟨ty, at_, mk, K, K1, rfl, rfl, hr1⟩ := fromReplace_parts S d d1 f t _ (apply_replace_from _ _ _ _ _ _ _ h1)
+  obtain ⟨ty', at', mk', K1', K2, he, rfl, hr2⟩ :=
+    fromReplace_parts S _ d2 f' t' _ (apply_replace_from _ _ _ _ _ _ _ h2)
+  cases he
+  simp only [Node.kids] at hn
+  have F1 := fwdFacts S ty K K1 f t _ hr1
+  have F2 := fwdFacts S ty K1 K2 f' t' _ hr2
+  obtain ⟨c, a, e⟩ := sl
+  obtain ⟨c', a', b⟩ := sl'
+  simp only [mergeCompat, Node.kids]
+  simp only [Step.merge, Bool.or_self, Bool.false_eq_true, if_false] at hm
+  split at hm
+  · rename_i hc
+    rw [if_pos hc]
+  · split at hm
+    · rename_i hnc hc
+      rw [if_neg hnc]
+      simp only [Bool.and_eq_true, decide_eq_true_eq] at hc
+      obtain ⟨⟨rfl, rfl⟩, rfl⟩ := hc
+      simp only [Option.some.injEq] at hm
+      subst hm
+      obtain ⟨ty2, at2, mk2, K', K2', he', rfl, hr'⟩ :=
+        fromReplace_parts S _ d' f' t _ (apply_replace_from _ _ _ _ _ _ _ h')
+      cases he'
+      have hanc := replaceKids_anc S ty K K2' f' t _ hn hr'
+      -- the merged slice is open on the left like the second one; depths left of `t'` did not change
+      have hft' := F2.range.1
+      have hr := F1.range
+      have hsz1 := F1.size
+      have e1 : depthAt K1 f' = depthAt K f' :=
+        depthAt_of_take_eq K K1 f' (by omega) (by omega) (F1.take_left f' hft')
+      have e2 : depthAt K1 t' = depthAt K t' :=
+        depthAt_of_take_eq K K1 t' (by omega) (by omega) (F1.take_left t' (Nat.le_refl _))
+      have hd2 := F2.depths
+      simp only at hd2
+      have hw1 := F1.wf
+      have hw2 := F2.wf
+      simp only [Slice.wf, Bool.and_eq_true, decide_eq_true_eq] at hw1 hw2
+      have hopen : (if (Slice.mk c 0 e).size + (Slice.mk c' a' 0).size = 0 then Slice.empty
+          else ⟨fappend c' c, a', e⟩ : Slice).openStart = a' := by
+        split
+        · rename_i hz
+          have := spineL_le c'
+          have := spineR_le c
+          simp only [Slice.size] at hz
+          simp only [Slice.empty]
+          omega
+        · rfl
+      rw [hopen] at hanc
+      rw [show depthAt K t' = depthAt K f' - a' by omega]
+      exact hanc
+    · simp at hm
+
+/-- **exact characterisation**: under the hypotheses of `merge_succeeds_replace` minus the schema guard, the
+    merged step applies **iff** the per-case guard holds (and then it yields the pair's result) -/
+theorem merge_succeeds_replace_iff (S : Schema) (d d1 d2 : Node)
+    (f t f' t' : Nat) (sl sl' : Slice) (m : Step)
+    (hv : S.checkNode d = true) (hn : fnorm d.kids = true)
+    (hsn : fnorm sl.content = true) (hsn' : fnorm sl'.content = true)
+    (hp : openValid S sl.openStart sl.openEnd sl.content = true)
+    (hp' : openValid S sl'.openStart sl'.openEnd sl'.content = true)
+    (h1 : S.apply (.replace f t sl false) d = .ok d1)
+    (h2 : S.apply (.replace f' t' sl' false) d1 = .ok d2)
+    (hm : (Step.replace f t sl false).merge (.replace f' t' sl' false) = some m)
+    (ha1 : alignedAt d1.kids f = true ∧ alignedAt d1.kids (f + sl.size.toNat) = true)
+    (ha2 : alignedAt d2.kids f' = true ∧ alignedAt d2.kids (f' + sl'.size.toNat) = true) :
+    (∃ d', S.apply m d = .ok d') ↔
+      mergeCompat S d (.replace f t sl false) (.replace f' t' sl' false) = true :=
+  ⟨fun ⟨d', h'⟩ => mergeCompat_of_merged_applies S d d1 d2 d' f t f' t' sl sl' m hn h1 h2 hm h',
+   fun hg => ⟨d2, merge_succeeds_replace_backward S d d1 d2 f t f' t' sl sl' m hg hv hn hsn hsn' hp hp' h1 h2 hm
+     ha1 ha2⟩⟩
+
 /-! The guard `compatTransB` of `merge_succeeds_replace` cannot be dropped (second `merge` branch, deleting
     backwards): a schema in which `compatible_content` is not transitive — `doc "(A|B|C)*"`, `A "p q*"`,
     `B "q+"`, `C "(p|q)*"`, `p`, `q` leaves: `A ~ C` (both can start with `p`), `C ~ B` (`q`), but not
@@ -517,6 +917,110 @@ theorem merge_needs_guard :
   · simp [Step.merge, Slice.empty, Slice.size]
   · simp [Schema.apply, Schema.fromReplace, Schema.replace, g0, lp, lq, Slice.empty, replaceKids, inRange,
       depthAt, Slice.wf, spineL, spineR, outer, atLevel, twoWay, splitRight, c12, Except.map]
+/-! Non-vacuity of `merge_succeeds_replace_forward` in the same non-transitive schema: in
+    `doc(A(p, q), C(q), C(q))` delete 3 … 5 (joins the first `C` onto `A`), then 3 … 6 (deletes the `q`
+    that came over and joins the second `C` onto `A`); the merged step "delete 3 … 8" applies and gives
+    the pair's result `doc(A(p, q, q))`. -/
+private def w0 : Node := .elem 0 [] [] [.elem 1 [] [] [lp, lq], .elem 3 [] [] [lq], .elem 3 [] [] [lq]]
+private def w1 : Node := .elem 0 [] [] [.elem 1 [] [] [lp, lq, lq], .elem 3 [] [] [lq]]
+private def w2 : Node := .elem 0 [] [] [.elem 1 [] [] [lp, lq, lq]]
+
+private theorem fw1 : brS.apply (.replace 3 5 Slice.empty false) w0 = .ok w1 := by
+  have c13 : brS.compatibleContent 3 1 = true := by decide
+  have v1 : brS.validContent 1 [Node.leaf 4 [] [], Node.leaf 5 [] [], Node.leaf 5 [] []] = true := by decide
+  have v0 : brS.validContent 0 [Node.elem 1 [] [] [Node.leaf 4 [] [], Node.leaf 5 [] [], Node.leaf 5 [] []],
+      Node.elem 3 [] [] [Node.leaf 5 [] []]] = true := by decide
+  have fa1 : fromArray [Node.leaf 4 [] [], Node.leaf 5 [] [], Node.leaf 5 [] []]
+      = [Node.leaf 4 [] [], Node.leaf 5 [] [], Node.leaf 5 [] []] := by rfl
+  have fa0 : fromArray [Node.elem 1 [] [] [Node.leaf 4 [] [], Node.leaf 5 [] [], Node.leaf 5 [] []],
+        Node.elem 3 [] [] [Node.leaf 5 [] []]]
+      = [Node.elem 1 [] [] [Node.leaf 4 [] [], Node.leaf 5 [] [], Node.leaf 5 [] []],
+        Node.elem 3 [] [] [Node.leaf 5 [] []]] := by rfl
+  simp [Schema.apply, Schema.fromReplace, Schema.replace, w0, w1, lp, lq, Slice.empty, replaceKids, inRange,
+    depthAt, Slice.wf, spineL, spineR, outer, atLevel, twoWay, splitRight, Schema.close, fa1, fa0, v1, v0,
+    c13, Except.map]
+
+private theorem fw2 : brS.apply (.replace 3 6 Slice.empty false) w1 = .ok w2 := by
+  have c13 : brS.compatibleContent 3 1 = true := by decide
+  have v1 : brS.validContent 1 [Node.leaf 4 [] [], Node.leaf 5 [] [], Node.leaf 5 [] []] = true := by decide
+  have v0 : brS.validContent 0 [Node.elem 1 [] [] [Node.leaf 4 [] [], Node.leaf 5 [] [], Node.leaf 5 [] []]]
+      = true := by decide
+  have fa1 : fromArray [Node.leaf 4 [] [], Node.leaf 5 [] [], Node.leaf 5 [] []]
+      = [Node.leaf 4 [] [], Node.leaf 5 [] [], Node.leaf 5 [] []] := by rfl
+  have fa0 : fromArray [Node.elem 1 [] [] [Node.leaf 4 [] [], Node.leaf 5 [] [], Node.leaf 5 [] []]]
+      = [Node.elem 1 [] [] [Node.leaf 4 [] [], Node.leaf 5 [] [], Node.leaf 5 [] []]] := by rfl
+  simp [Schema.apply, Schema.fromReplace, Schema.replace, w1, w2, lp, lq, Slice.empty, replaceKids, inRange,
+    depthAt, Slice.wf, spineL, spineR, outer, atLevel, twoWay, splitRight, Schema.close, fa1, fa0, v1, v0,
+    c13, Except.map]
+
+example : compatTransB brS = false ∧ brS.apply (.replace 3 8 Slice.empty false) w0 = .ok w2 := by
+  refine ⟨by decide, ?_⟩
+  have := merge_succeeds_replace_forward brS w0 w1 w2 3 5 3 6 Slice.empty Slice.empty _
+    (by simp [w0, lp, lq, Schema.checkNode, Schema.checkKids]; decide)
+    (by simp [w0, lp, lq, Node.kids, fnorm, fnormKids, Node.norm, chainOk, adjOk])
+    (by simp [Slice.empty, fnorm, chainOk]) (by simp [Slice.empty, fnorm, chainOk])
+    (by simp [Slice.empty, openValid, rightOpenValid, Schema.checkKids])
+    (by simp [Slice.empty, openValid, rightOpenValid, Schema.checkKids])
+    fw1 fw2 rfl (by simp [Slice.empty, Slice.size])
+    (by simp [w1, lp, lq, Node.kids, Slice.empty, Slice.size, alignedAt])
+    (by simp [w2, lp, lq, Node.kids, Slice.empty, Slice.size, alignedAt])
+  simpa [Slice.empty, Slice.size] using this
+/-! Non-vacuity of `merge_succeeds_replace_backward` in the same non-transitive schema, second `merge`
+    branch: in `doc(A(p, q), C(q), C(q))` delete 6 … 8 (joins the second `C` onto the first), then 3 … 6
+    (joins the result onto `A`); the guard asks for `A ~ C` only and holds, the merged step "delete 3 … 8"
+    applies and gives `doc(A(p, q, q))`.  In `merge_needs_guard` the guard is false. -/
+private def w1b : Node := .elem 0 [] [] [.elem 1 [] [] [lp, lq], .elem 3 [] [] [lq, lq]]
+
+private theorem bw1 : brS.apply (.replace 6 8 Slice.empty false) w0 = .ok w1b := by
+  have c33 : brS.compatibleContent 3 3 = true := by decide
+  have v3 : brS.validContent 3 [Node.leaf 5 [] [], Node.leaf 5 [] []] = true := by decide
+  have v0 : brS.validContent 0 [Node.elem 1 [] [] [Node.leaf 4 [] [], Node.leaf 5 [] []],
+      Node.elem 3 [] [] [Node.leaf 5 [] [], Node.leaf 5 [] []]] = true := by decide
+  have fa3 : fromArray [Node.leaf 5 [] [], Node.leaf 5 [] []] = [Node.leaf 5 [] [], Node.leaf 5 [] []] := by rfl
+  have fa0 : fromArray [Node.elem 1 [] [] [Node.leaf 4 [] [], Node.leaf 5 [] []],
+        Node.elem 3 [] [] [Node.leaf 5 [] [], Node.leaf 5 [] []]]
+      = [Node.elem 1 [] [] [Node.leaf 4 [] [], Node.leaf 5 [] []],
+        Node.elem 3 [] [] [Node.leaf 5 [] [], Node.leaf 5 [] []]] := by rfl
+  simp [Schema.apply, Schema.fromReplace, Schema.replace, w0, w1b, lp, lq, Slice.empty, replaceKids, inRange,
+    depthAt, Slice.wf, spineL, spineR, outer, atLevel, twoWay, splitRight, Schema.close, fa3, fa0, v3, v0,
+    c33, Except.map]
+
+private theorem bw2 : brS.apply (.replace 3 6 Slice.empty false) w1b = .ok w2 := by
+  have c13 : brS.compatibleContent 3 1 = true := by decide
+  have v1 : brS.validContent 1 [Node.leaf 4 [] [], Node.leaf 5 [] [], Node.leaf 5 [] []] = true := by decide
+  have v0 : brS.validContent 0 [Node.elem 1 [] [] [Node.leaf 4 [] [], Node.leaf 5 [] [], Node.leaf 5 [] []]]
+      = true := by decide
+  have fa1 : fromArray [Node.leaf 4 [] [], Node.leaf 5 [] [], Node.leaf 5 [] []]
+      = [Node.leaf 4 [] [], Node.leaf 5 [] [], Node.leaf 5 [] []] := by rfl
+  have fa0 : fromArray [Node.elem 1 [] [] [Node.leaf 4 [] [], Node.leaf 5 [] [], Node.leaf 5 [] []]]
+      = [Node.elem 1 [] [] [Node.leaf 4 [] [], Node.leaf 5 [] [], Node.leaf 5 [] []]] := by rfl
+  simp [Schema.apply, Schema.fromReplace, Schema.replace, w1b, w2, lp, lq, Slice.empty, replaceKids, inRange,
+    depthAt, Slice.wf, spineL, spineR, outer, atLevel, twoWay, splitRight, Schema.close, fa1, fa0, v1, v0,
+    c13, Except.map]
+
+private theorem guard_w0 :
+    mergeCompat brS w0 (.replace 6 8 Slice.empty false) (.replace 3 6 Slice.empty false) = true := by
+  have c13 : brS.compatibleContent 1 3 = true := by decide
+  simp [mergeCompat, w0, lp, lq, Node.kids, Slice.empty, Slice.size, depthAt, ancCompat, splitRight, c13]
+
+/-- the per-case guard is false in the counterexample `merge_needs_guard` -/
+theorem merge_needs_guard_mergeCompat :
+    mergeCompat brS g0 (.replace 6 8 Slice.empty false) (.replace 3 6 Slice.empty false) = false := by
+  have c12 : brS.compatibleContent 1 2 = false := by decide
+  simp [mergeCompat, g0, lp, lq, Node.kids, Slice.empty, Slice.size, depthAt, ancCompat, splitRight, c12]
+
+example : compatTransB brS = false ∧ brS.apply (.replace 3 8 Slice.empty false) w0 = .ok w2 := by
+  refine ⟨by decide, ?_⟩
+  have := merge_succeeds_replace_backward brS w0 w1b w2 6 8 3 6 Slice.empty Slice.empty _ guard_w0
+    (by simp [w0, lp, lq, Schema.checkNode, Schema.checkKids]; decide)
+    (by simp [w0, lp, lq, Node.kids, fnorm, fnormKids, Node.norm, chainOk, adjOk])
+    (by simp [Slice.empty, fnorm, chainOk]) (by simp [Slice.empty, fnorm, chainOk])
+    (by simp [Slice.empty, openValid, rightOpenValid, Schema.checkKids])
+    (by simp [Slice.empty, openValid, rightOpenValid, Schema.checkKids])
+    bw1 bw2 rfl
+    (by simp [w1b, lp, lq, Node.kids, Slice.empty, Slice.size, alignedAt])
+    (by simp [w2, lp, lq, Node.kids, Slice.empty, Slice.size, alignedAt])
+  simpa [Step.merge, Slice.empty, Slice.size] using this
 end NeedsGuard
 
 end PM.C16
